@@ -1244,6 +1244,8 @@ class BinaryOpUGen(BasicOpUGen):
 
     def _optimize_sub(self):
         a, b = self.inputs
+        if a is b:
+            return
 
         if isinstance(b, UnaryOpUGen) and b.operator == 'neg'\
         and len(b._descendants) == 1:
